@@ -18,6 +18,8 @@ def one(name):
     try:
         meta = json.load(open(os.path.join(VERIF, "seeded", name, "meta.json")))
         prop = meta["property"]
+        if meta.get("retired"):
+            return name, {"property": prop, "outcome": "retired", "what": meta["retired"][:300]}
         subprocess.run(["rsync", "-a", "--exclude", ".git", "/repo/", d + "/"], check=True)
         p = subprocess.run(["patch", "-p1", "-s", "-i", os.path.join(VERIF, "seeded", name, "patch.diff")], cwd=d)
         if p.returncode != 0:
